@@ -270,7 +270,7 @@ for fam, names in {"int": "INT BININT BININT1 BININT2 LONG LONG1 LONG4", "float"
                    "str": "STRING UNICODE SHORT_BINUNICODE BINUNICODE BINUNICODE8",
                    "bytes": "BINBYTES SHORT_BINBYTES BINBYTES8 BINSTRING SHORT_BINSTRING BYTEARRAY8",
                    "list": "EMPTY_LIST LIST", "tuple": "EMPTY_TUPLE TUPLE TUPLE1 TUPLE2 TUPLE3", "dict": "EMPTY_DICT DICT",
-                   "none": "NONE", "bool": "NEWTRUE NEWFALSE"}.items():
+                   "none": "NONE", "bool": "NEWTRUE NEWFALSE", "set": "EMPTY_SET FROZENSET"}.items():
     for nm in names.split():
         FAMILY[nm] = fam
 
